@@ -173,6 +173,23 @@ peers = [
  dict(kex=['k'], key=['h'], enc=['c'], mac=['m'], sizes={}, dh={}),
  dict(kex=['k1', 'k2', 'k3', 'k1'], key=['h1', 'h2'], enc=['c1', 'c2', 'c3'], mac=['m1', 'm2'], sizes={'h1': (4096, 'ssh-ed25519', 256)}, dh={'k2': 2048, 'k3': 4096}),
 ]
+# seeded random peers: names drawn from the database and odd-but-legal spellings, random sizes
+import os
+from ssh_audit.ssh2_kexdb import SSH2_KexDB
+_r = random.Random(4242)
+_DB = SSH2_KexDB.MASTER_DB
+def _names(cat, k):
+    pool = [n for n in _DB[cat] if not n.endswith('-*')] + ['x=y@example.com', 'a+b/c==', 'name-with-dash_and.dot@host.example']
+    return _r.sample(pool, k)
+for _i in range(8 if os.environ.get('VERIF_TIER', 'quick') == 'quick' else 80):
+    _key = _names('key', _r.randrange(1, 5))
+    _kex = _names('kex', _r.randrange(1, 6))
+    peers.append(dict(kex=_kex, key=_key, enc=_names('enc', _r.randrange(1, 6)), mac=_names('mac', _r.randrange(1, 5)),
+                      sizes={t: (_r.choice([1024, 2048, 3072, 4096, 256]), _r.choice(['', 'ssh-rsa', 'ssh-ed25519']), _r.choice([0, 2048, 4096])) for t in _key[:_r.randrange(0, 3)]},
+                      dh={g: _r.choice([1024, 2048, 3072, 4096]) for g in _kex[:_r.randrange(0, 2)]}))
+for _p in peers:
+    # a CA type without a CA size (or the reverse) is not a certificate: keep the generated peers well-formed
+    _p['sizes'] = {t: (sz, (cat if cas else ''), (cas if cat else 0)) for t, (sz, cat, cas) in _p['sizes'].items()}
 def build(p):
     # (the client-to-server lists differ from the server-to-client ones: policies are made from, and compared with, the latter)
     kex = H.make_kex(p['kex'], p['key'], p['enc'], p['mac'], cli_enc=['c2s-' + x for x in reversed(p['enc'])] + ['c2s-extra'], cli_mac=['c2s-only-mac'])
